@@ -39,6 +39,10 @@ def run_one(path, all_props=False, workers=None):
         subprocess.run('git -C %s archive HEAD | tar -x -C %s' % (REPO, tree), shell=True, check=True)
         r = subprocess.run(['git', 'apply', '--whitespace=nowarn', os.path.abspath(path)], cwd=tree, capture_output=True, text=True)
         if r.returncode != 0:
+            # context moved by a later fix: commit in /repo: same hunks, located with fuzz
+            r = subprocess.run(['patch', '-p1', '--fuzz=3', '--no-backup-if-mismatch', '-s', '-i', os.path.abspath(path)], cwd=tree, capture_output=True, text=True)
+            res['applied_with_fuzz'] = (r.returncode == 0)
+        if r.returncode != 0:
             res['status'] = 'patch-does-not-apply'
             res['detail'] = r.stderr[-300:]
             return res
